@@ -7,7 +7,7 @@ import re
 from io import BytesIO
 
 from btclib import var_bytes
-from btclib.psbt import Psbt, PsbtIn
+from btclib.psbt import Psbt, PsbtIn, PsbtOut
 from btclib.psbt.psbt_utils import deserialize_map
 
 from . import common
@@ -65,8 +65,19 @@ def psbtin_reser(ver: int):
     return f
 
 
+def psbtout_reser(ver: int):
+    def f(mode: str, b: bytes) -> str:
+        try:
+            out = PsbtOut.parse(b, psbt_version=ver, check_validity=False).serialize(psbt_version=ver, check_validity=False)
+        except Exception as e:  # noqa: BLE001
+            return "err refused" if common.err_class(e) in ("value", "type", "runtime") else "err " + common.err_class(e)
+        return "ok " + hx(out)
+    return f
+
+
 OPS = {"psbtmap.parse": psbtmap_parse, "psbtmap.norm": psbtmap_norm,
-       "psbtin.reser0": psbtin_reser(0), "psbtin.reser2": psbtin_reser(2)}
+       "psbtin.reser0": psbtin_reser(0), "psbtin.reser2": psbtin_reser(2),
+       "psbtout.reser0": psbtout_reser(0), "psbtout.reser2": psbtout_reser(2)}
 
 
 def records_of(b: bytes):
@@ -208,6 +219,10 @@ def gen_typed_records(rng):
         return common.rand_bytes(rng, 4) + b"".join(rng.getrandbits(32).to_bytes(4, "little") for _ in range(n))
 
     r = rng.random
+    if r() < 0.3:
+        for _ in range(rng.choice([1, 2])):
+            recs.append((b"\x02" + rng.choice([b"\x02", b"\x03"]) + common.rand_bytes(rng, 32),
+                         common.rand_bytes(rng, rng.choice([1, 71, 72]))))
     if r() < 0.35:
         for _ in range(rng.choice([1, 2])):
             recs.append((b"\x06" + rng.choice([b"\x02", b"\x03"]) + common.rand_bytes(rng, 32), fp_path()))
@@ -259,6 +274,58 @@ def gen_typed_records(rng):
     return out
 
 
+def gen_out_records(rng):
+    """output-map records over every field of PsbtOut, mostly well formed"""
+    from btclib import var_int
+    recs = []
+    r = rng.random
+
+    def fp_path():
+        return common.rand_bytes(rng, 4) + b"".join(rng.getrandbits(32).to_bytes(4, "little") for _ in range(rng.choice([0, 1, 3])))
+
+    for t in (b"\x00", b"\x01"):
+        if r() < 0.35:
+            recs.append((t, common.rand_bytes(rng, rng.choice([0, 1, 22, 34]))))
+    if r() < 0.35:
+        recs.append((b"\x02" + rng.choice([b"\x02", b"\x03"]) + common.rand_bytes(rng, 32), fp_path()))
+    if r() < 0.35:
+        recs.append((b"\x03", rng.choice([0, 1, 5000, -1]).to_bytes(8, "little", signed=True)))
+        recs.append((b"\x04", common.rand_bytes(rng, rng.choice([0, 22, 34]))))
+    if r() < 0.3:
+        recs.append((b"\x05", common.rand_bytes(rng, rng.choice([0, 32]))))
+    if r() < 0.35:
+        tree = b"".join(bytes([rng.randrange(3), 0xC0]) + var_bytes.serialize(common.rand_bytes(rng, rng.randrange(0, 5)))
+                        for _ in range(rng.choice([0, 1, 2, 3])))
+        if r() < 0.15:
+            tree += bytes([1])                                  # a depth with nothing after it
+        recs.append((b"\x06" if r() < 0.9 else b"\x06\xaa", tree))   # key data on the tree: refused since bfff2ab9
+    if r() < 0.25:
+        n = rng.choice([0, 1, 2])
+        recs.append((b"\x07" + common.rand_bytes(rng, 32), var_int.serialize(n) + common.rand_bytes(rng, 32 * n) + fp_path()))
+    if r() < 0.2:
+        recs.append((b"\x08" + b"\x02" + common.rand_bytes(rng, 32), (b"\x03" + common.rand_bytes(rng, 32)) * rng.choice([1, 2])))
+    if r() < 0.2:
+        recs.append((b"\x09", common.rand_bytes(rng, rng.choice([0, 66]))))
+    if r() < 0.2:
+        recs.append((b"\x0a", rng.choice([0, 1, 2**32 - 1]).to_bytes(4, "little")))
+    for _ in range(rng.choice([0, 1, 2])):
+        t = rng.choice([0x0b, 0x19, 0xfc, 0xff])
+        recs.append((bytes([t]) + common.rand_bytes(rng, rng.randrange(0, 4)), common.rand_bytes(rng, rng.randrange(0, 6))))
+    if r() < 0.2 and recs:
+        i = rng.randrange(len(recs))
+        k, v = recs[i]
+        how = r()
+        recs[i] = ((k, v[:-1] if v else b"\x00") if how < 0.35 else (k, v + b"\x00") if how < 0.6
+                   else (k[:1] + b"\x01" + k[1:], v) if how < 0.8 else (k[:1], v))
+    seen, out = set(), []
+    for k, v in recs:
+        if k not in seen:
+            seen.add(k)
+            out.append((k, v))
+    rng.shuffle(out)
+    return out
+
+
 def mutate_map(recs, rng) -> bytes:
     b = ser_records(recs)
     r = rng.random()
@@ -285,6 +352,7 @@ def run(ctx):
     # ---- map layer: deserialize_map against the model
     lines = []
     maps_in = []
+    maps_out = []
     for b, n_in, _n_out in vendored_psbts():
         try:
             maps = split_maps(b)
@@ -294,6 +362,7 @@ def run(ctx):
             lines.append(f"psbtmap.parse o {hx(m)}")
             ctx.count("c05.input_class", "psbtmap:vendored")
         maps_in += maps[1:1 + n_in]
+        maps_out += maps[1 + n_in:1 + n_in + _n_out]
     for _ in range(ctx.n(600, 8000)):
         recs = gen_records(rng)
         r = rng.random()
@@ -363,3 +432,22 @@ def run(ctx):
                   ("kept all" if len(im) - 3 == len(ln.split(" ")[2]) else "normalised (records dropped)"))
         cases.append((ln, im))
     ctx.correspond("psbtin.reser", ctx.harness.EXE, cases)
+
+    # ---- the same for output maps
+    pool = list(dict.fromkeys(maps_out[:ctx.n(200, 2000)]))
+    pool.append(bytes.fromhex("0206aa0400c0015100"))             # regression: tap tree with key data (bfff2ab9)
+    for _ in range(ctx.n(400, 6000)):
+        pool.append(ser_records(gen_out_records(rng)))
+    lines = [f"psbtout.reser{v} o {hx(m)}" for m in pool for v in (0, 2)]
+    outs = ctx.model(ctx.harness.EXE, lines)
+    cases = []
+    for i, ln in enumerate(lines):
+        t = ln.split(" ")
+        im = OPS[t[0]]("o", bytes.fromhex(t[2]) if t[2] != "_" else b"")
+        if outs is not None and im == "err refused" and outs[i].startswith("ok"):
+            ctx.count("psbtout.reser.class", "semantic refusal (not modelled)")
+            continue
+        ctx.count("psbtout.reser.class", "refused" if im.startswith("err") else
+                  ("kept all" if len(im) - 3 == len(t[2]) else "normalised (records dropped)"))
+        cases.append((ln, im))
+    ctx.correspond("psbtout.reser", ctx.harness.EXE, cases)
